@@ -218,6 +218,12 @@ func execute(p *conn, sc *Script, variant string, runID string, ws atp.WorkStart
 		return
 	}
 	Log("exec-start", p.src, p.id, runID, map[string]any{"step": ws.StepID, "input": input, "raw": ws.Config})
+	if tag, ok := input["tag"].(string); ok && len(tag) < 64 {
+		// lets a trigger select the execution that belongs to one particular run (C14)
+		for _, part := range tagParts(tag) {
+			Log("exec-start-tag:"+part, p.src, p.id, runID, nil)
+		}
+	}
 	es := sc.Exec
 	if tag, ok := input["tag"].(string); ok {
 		if o, ok := sc.ExecByTag[tag]; ok {
@@ -313,4 +319,21 @@ func execute(p *conn, sc *Script, variant string, runID string, ws atp.WorkStart
 	}
 	Log("exec-end", p.src, p.id, runID, map[string]any{"id": outID, "data": outData})
 	_ = send(atp.RuntimeMessage{MessageID: atp.MessageTypeWorkDone, RunID: runID, MessageData: atp.WorkDoneMessage{StepID: ws.StepID, OutputID: outID, OutputData: outData}})
+}
+
+// tagParts returns the run tags (R<digits>x) occurring in a provenance string.
+func tagParts(tag string) []string {
+	var out []string
+	for i := 0; i < len(tag); i++ {
+		if tag[i] == 'R' {
+			j := i + 1
+			for j < len(tag) && tag[j] >= '0' && tag[j] <= '9' {
+				j++
+			}
+			if j > i+1 && j < len(tag) && tag[j] == 'x' {
+				out = append(out, tag[i:j+1])
+			}
+		}
+	}
+	return out
 }
